@@ -11,4 +11,5 @@ fi
 $V/bin/instr -repo /repo -out "$S/instr" -rt $V/rt \
   -pkg workflow -pkg internal/step/plugin -pkg internal/step/foreach -pkg internal/infer -pkg . -pkg loadfile -pkg internal/yaml -pkg internal/step \
   -swap go.flow.arcalot.io/pluginsdk/atp=go.flow.arcalot.io/engine/internal/verif/fakeatp "$@"
-(cd /repo && go build -overlay "$S/instr/overlay.json" -o "$S/verifh" ./cmd/verifh)
+cp /repo/go.mod "$S/go.mod"; cp /repo/go.sum "$S/go.sum"
+(cd /repo && go build -modfile="$S/go.mod" -overlay "$S/instr/overlay.json" -o "$S/verifh" ./cmd/verifh)
